@@ -208,7 +208,13 @@ class BackendProvider(ABC):
 
         Returns integer result if the result is a whole number.
         """
-        r = np.power(float(a) if isinstance(a, (int, np.integer)) else a, b)
+        # powers are computed in floating point (an integer base with a negative exponent is an error for
+        # NumPy); eval_dyad_power turns whole results back into integers
+        if isinstance(a, (int, np.integer)):
+            a = float(a)
+        elif isinstance(a, np.ndarray) and a.dtype.kind in 'iu':
+            a = a.astype(float)
+        r = np.power(a, b)
         return r
 
     def has_gradient(self, x) -> bool:
